@@ -389,11 +389,16 @@ def merge_cells(
 def compute_levels(parents):
     levels = np.zeros_like(parents)
 
-    for i, p in enumerate(parents):
-        if p == -1:
-            levels[i] = 0
-        else:
-            levels[i] = levels[p] + 1
+    # Repeat until nothing changes such that a child can also be listed before its
+    # parent in `parents`.
+    changed = True
+    while changed:
+        changed = False
+        for i, p in enumerate(parents):
+            level = 0 if p == -1 else levels[p] + 1
+            if levels[i] != level:
+                levels[i] = level
+                changed = True
     return levels
 
 
